@@ -374,7 +374,9 @@ func checkC12(c *mc.Ctx) {
 	}
 	var jobs []job
 	shapes := []int64{pesShapeRadix.Size() - 1, 2, 0}
-	// full shape index: indicator 2, all flags, ext subset 16 -> last index
+	// full shape index: indicator 2, all flags, ext subset 16 -> last index; the same without the CRC (which the
+	// library cannot write) so that every field value is also ENCODED with other fields behind it
+	shapes = append(shapes, pesShapeRadix.Index([]int{2, 1, 1, 1, 1, 0, 16}))
 	for _, sh := range shapes {
 		base := pesShape(sh, 0xe0)
 		for _, f := range pesFields {
@@ -416,7 +418,7 @@ func checkC12(c *mc.Ctx) {
 		c12Decode(c, j.h, j.what, false)
 		c12Encode(c, j.h, j.what, false)
 	})
-	c.Ev.AddScenario(mc.Scenario{Name: "field alphabets", SpaceSize: nj, Executed: done, Exhaustive: done == nj, Bound: "every field over its alphabet alone on 3 shapes; every pair of fields over 3 values on the full shape"})
+	c.Ev.AddScenario(mc.Scenario{Name: "field alphabets", SpaceSize: nj, Executed: done, Exhaustive: done == nj, Bound: "every field over its alphabet alone on 4 shapes (none, PTS only, everything, everything writable); every pair of fields over 3 values on the full shape"})
 	c.Ev.DistinctAdd(done)
 	c.Ev.Sample(map[string]any{"what": jobs[len(jobs)/3].what, "bytes": mc.Hex(jobs[len(jobs)/3].h.Encode(nil, ref.LenExact))})
 
